@@ -237,3 +237,52 @@ def validate_model__replay(slice_, cex):
     except AssertionError as e:
         return {'reproduced': True, 'detail': repr(e)}
     return {'reproduced': False, 'detail': 'passes'}
+
+
+KNOWN_F58 = sl('f58', '')
+
+
+# ---- the multiplier step of _digit_number_parse (cut the k / M / thousand / lakh / mil ... token out, collect its power) ------------------
+def multiplier_cut(slice_, timeout):
+    """For every multiplier token of the culture's round-number map that its digital_number_regex accepts, with and without a blank
+    in front, behind numerals of every separator layout of the culture: _digit_number_parse gives exactly what _get_digital_value gives
+    for the bare numeral with the token's power (O3.2 decides _get_digital_value for all digits; this step never looks at the digits, so
+    one numeral per layout stands for the layout -- finite, exhaustive over tokens x layouts; not a solver verdict on its own)."""
+    import regex as _re
+    from recognizers_text.extractor import ExtractResult
+    from recognizers_number import recognize_number
+    cfg = PARSER.config
+    toks = [t for t in cfg.round_number_map if _re.fullmatch(cfg.digital_number_regex, t)]
+    g, d = GRP_MARK, OWN_DEC
+    numerals = ['7', '12', '1234', '1' + g + '234', '12' + g + '345' + g + '678', '1' + d + '5', '1' + g + '234' + d + '5', '0' + d + '25']
+    n, bad = 0, []
+    for tok in toks:
+        for num in numerals:
+            for blank in ('', ' ', '  '):
+                text = num + blank + tok
+                if blank == '' and CULTURE[:2] in ('de', 'nl') and len(tok) > 1 and KNOWN_F58 != 'only':
+                    continue          # digit + multiplier WORD written together in German / Dutch: region of finding F58
+                if KNOWN_F58 == 'only' and not (blank == '' and len(tok) > 1):
+                    continue
+                rs = recognize_number(text, CULTURE)
+                if not (len(rs) == 1 and rs[0].text == text):
+                    continue          # not a literal of the culture (e.g. no word boundary between digit and word): nothing to judge
+                want = PARSER._get_digital_value(num, cfg.round_number_map[tok])
+                exp = cfg.culture_info.format(want) if cfg.culture_info is not None else str(want)
+                n += 1
+                if rs[0].resolution['value'] != exp:
+                    bad.append((text, rs[0].resolution['value'], exp))
+                    continue
+                er = ExtractResult()
+                er.start, er.length, er.text, er.type = 0, len(text), text, 'builtin.num'
+                got = PARSER._digit_number_parse(er).value
+                if got != want:
+                    bad.append(('parser ' + text, str(got), str(want)))
+    if bad:
+        return {'state': 'counterexample', 'cex': {'first': repr(bad[0])}, 'detail': 'multiplier token not cut out cleanly: (text, got, expected) %r' % (bad[:60],), 'queries': n}
+    return {'state': 'discharged', 'detail': '%d texts (%d tokens x %d numerals x 3 spacings, + API where one entity)' % (n, len(toks), len(numerals)), 'queries': n, 'sample': {'tokens': toks[:12]}}
+
+
+def multiplier_cut__replay(slice_, cex):
+    r = multiplier_cut(slice_, 0)
+    return {'reproduced': r['state'] == 'counterexample', 'detail': r['detail']}
